@@ -98,6 +98,7 @@ OgreArrayPoolAllocator<DataType, ContainerType, POOL_SIZE> {
 
     #[inline(always)]
     fn dealloc_id(&self, slot_id: u32) {
+        vp!("pa.dealloc.drop", slot_id);
         if std::mem::needs_drop::<DataType>() {
             unsafe {
                 let pool = &mut *(self.pool.get() as *mut Box<[DataType; POOL_SIZE]>);
@@ -105,6 +106,7 @@ OgreArrayPoolAllocator<DataType, ContainerType, POOL_SIZE> {
                 ptr::drop_in_place(slot);
             }
         }
+        vp!("pa.dealloc.free", slot_id);
         self.free_list.publish_movable(slot_id);
     }
 
